@@ -20,6 +20,7 @@ package runtime
 
 import (
 	stdErrors "errors"
+	"sync"
 	"time"
 
 	"github.com/onflow/cadence"
@@ -34,6 +35,9 @@ import (
 type Program struct {
 	interpreterProgram *interpreter.Program
 	compiledProgram    *compiledProgram
+	// compileLock guards the lazy compilation of the program.
+	// Programs get cached by the embedder, and may be shared by concurrent executions.
+	compileLock sync.Mutex
 }
 
 type Script struct {
